@@ -26,7 +26,7 @@
 (***************************************************************************)
 EXTENDS Treap
 
-CONSTANTS Keys, Prios, MaxOps, MaxFlush, MaxCrash,
+CONSTANTS Keys, Prios, MaxOps, MaxFlush, MaxCrash, MaxRevert,
           RootFirst   \* FALSE: the code's order (root record last); TRUE: negative control (root record first)
 
 VARIABLES file,    \* sequence of records
@@ -37,9 +37,10 @@ VARIABLES file,    \* sequence of records
           pend,    \* records the running Flush still has to write (<<>>: no flush running)
           pinned,  \* the tree the running Flush pinned
           dur,     \* ghost: stack of [end, items]: flushed contents by root-record location
-          ops, flushes, crashes, up
+          ops, flushes, crashes, reverts, up,
+          clean    \* ghost: nothing mutated since the last open / revert / completed flush
 
-vars == <<file, pos, tree, nloc, iloc, pend, pinned, dur, ops, flushes, crashes, up>>
+vars == <<file, pos, tree, nloc, iloc, pend, pinned, dur, ops, flushes, crashes, reverts, up, clean>>
 
 ItemRec(it) == [kind |-> "item", it |-> it, item |-> 0, l |-> 0, r |-> 0, root |-> 0]
 NodeRec(i, l, r) == [kind |-> "node", it |-> <<>>, item |-> i, l |-> l, r |-> r, root |-> 0]
@@ -104,6 +105,15 @@ Load(f, n) ==
        IN IF ~okItem \/ l = <<"bad">> \/ r = <<"bad">> THEN <<"bad">>
           ELSE MkNode(f[rec.item].it, l, r)
 
+\* the locations a store knows after loading the tree at n: every node and
+\* item reachable from it is persisted where the file says
+RECURSIVE NLocs(_, _)
+NLocs(f, n) == IF n = 0 THEN <<>>
+               ELSE (Load(f, n) :> n) @@ NLocs(f, f[n].l) @@ NLocs(f, f[n].r)
+RECURSIVE ILocs(_, _)
+ILocs(f, n) == IF n = 0 THEN <<>>
+               ELSE (f[f[n].item].it :> f[n].item) @@ ILocs(f, f[n].l) @@ ILocs(f, f[n].r)
+
 \* location of the last complete root record at or below `upto' (0: none)
 LastRoot(f, upto) ==
   LET S == {i \in 1..upto : i <= Len(f) /\ f[i].kind = "root"}
@@ -114,12 +124,13 @@ TopItems == IF dur = <<>> THEN <<>> ELSE dur[Len(dur)].items
 (***************************************************************************)
 Init == /\ file = <<>> /\ pos = 0 /\ tree = Empty /\ nloc = <<>> /\ iloc = <<>>
         /\ pend = <<>> /\ pinned = Empty /\ dur = <<>>
-        /\ ops = 0 /\ flushes = 0 /\ crashes = 0 /\ up = TRUE
+        /\ ops = 0 /\ flushes = 0 /\ crashes = 0 /\ reverts = 0 /\ up = TRUE /\ clean = TRUE
 
 Mutate == /\ up /\ ops < MaxOps /\ ops' = ops + 1
           /\ \/ \E k \in Keys, p \in Prios : tree' = SetT(tree, Item(k, ops + 1, p, 1, 1))
              \/ \E k \in Keys : tree' = DelT(tree, k)
-          /\ UNCHANGED <<file, pos, nloc, iloc, pend, pinned, dur, flushes, crashes, up>>
+          /\ clean' = FALSE
+          /\ UNCHANGED <<file, pos, nloc, iloc, pend, pinned, dur, flushes, crashes, reverts, up>>
 
 \* Flush pins the tree and works out what to write.  (The mutator may go on
 \* mutating `tree' while the flusher writes: mutations stay enabled.)
@@ -127,7 +138,7 @@ FlushBegin == /\ up /\ pend = <<>> /\ flushes < MaxFlush
               /\ pinned' = tree
               /\ pend' = FlushPlan(tree, pos).recs
               /\ flushes' = flushes + 1
-              /\ UNCHANGED <<file, pos, tree, nloc, iloc, dur, ops, crashes, up>>
+              /\ UNCHANGED <<file, pos, tree, nloc, iloc, dur, ops, crashes, reverts, up, clean>>
 
 \* one WriteAt at the store's position, then size advances and the location
 \* is recorded in memory
@@ -145,7 +156,8 @@ WriteOne ==
                 /\ IF rec.kind = "item" THEN iloc' = (rec.it :> at) @@ iloc /\ nloc' = nloc
                    ELSE IF Load(file', at) = <<"bad">> THEN UNCHANGED <<nloc, iloc>>
                    ELSE nloc' = (Load(file', at) :> at) @@ nloc /\ iloc' = iloc
-  /\ UNCHANGED <<tree, pinned, ops, flushes, crashes, up>>
+  /\ clean' = (IF Head(pend).kind = "root" THEN tree = pinned ELSE clean)
+  /\ UNCHANGED <<tree, pinned, ops, flushes, crashes, reverts, up>>
 
 \* the process dies: optionally in the middle of the next write (torn record)
 Crash == /\ up /\ crashes < MaxCrash /\ crashes' = crashes + 1
@@ -153,19 +165,34 @@ Crash == /\ up /\ crashes < MaxCrash /\ crashes' = crashes + 1
             \/ pend # <<>> /\ file' = SubSeq(file, 1, pos) \o <<TornRec>> \o SubSeq(file, pos + 2, Len(file))
          /\ up' = FALSE /\ tree' = Empty /\ nloc' = <<>> /\ iloc' = <<>> /\ pend' = <<>> /\ pinned' = Empty
          /\ dur' = SelectSeq(dur, LAMBDA d : d.end <= Len(file))
-         /\ UNCHANGED <<pos, ops, flushes>>
+         /\ UNCHANGED <<pos, ops, flushes, reverts, clean>>
 
 \* NewStore on the surviving file
 Open == /\ ~up
         /\ LET r == LastRoot(file, Len(file))
-               t == IF r = 0 THEN Empty ELSE Load(file, file[r].root)
+               rn == IF r = 0 THEN 0 ELSE file[r].root
+               t == IF r = 0 THEN Empty ELSE Load(file, rn)
            IN /\ tree' = t /\ pos' = r
-              \* everything reachable from the root is persisted where the file says
-              /\ nloc' = <<>> /\ iloc' = <<>>
-        /\ up' = TRUE
-        /\ UNCHANGED <<file, pend, pinned, dur, ops, flushes, crashes>>
+              /\ nloc' = IF t = <<"bad">> THEN <<>> ELSE NLocs(file, rn)
+              /\ iloc' = IF t = <<"bad">> THEN <<>> ELSE ILocs(file, rn)
+        /\ up' = TRUE /\ clean' = TRUE
+        /\ UNCHANGED <<file, pend, pinned, dur, ops, flushes, crashes, reverts>>
 
-Next == Mutate \/ FlushBegin \/ WriteOne \/ Crash \/ Open
+\* FlushRevert: drop everything in memory, find the root record before the
+\* newest one at or below the store's position, truncate the file there
+Revert == /\ up /\ pend = <<>> /\ reverts < MaxRevert /\ reverts' = reverts + 1
+          /\ LET r == LastRoot(file, pos)
+                 tgt == IF r = 0 THEN 0 ELSE LastRoot(file, r - 1)
+                 rn == IF tgt = 0 THEN 0 ELSE file[tgt].root
+                 f2 == SubSeq(file, 1, tgt)
+             IN /\ file' = f2 /\ pos' = tgt
+                /\ tree' = IF tgt = 0 THEN Empty ELSE Load(f2, rn)
+                /\ nloc' = NLocs(f2, rn) /\ iloc' = ILocs(f2, rn)
+                /\ dur' = SelectSeq(dur, LAMBDA d : d.end <= tgt)
+          /\ clean' = TRUE
+          /\ UNCHANGED <<pend, pinned, ops, flushes, crashes, up>>
+
+Next == Mutate \/ FlushBegin \/ WriteOne \/ Crash \/ Open \/ Revert
 Spec == Init /\ [][Next]_vars
 
 (***************************************************************************)
@@ -189,6 +216,7 @@ Layout == \A i \in DOMAIN file :
 \* C09: a write never lands at or below the last durable root record
 AppendOnly == dur = <<>> \/ pos >= dur[Len(dur)].end \/ ~up
 
-\* after recovery the store shows the durable contents
-OpenShowsDurable == (up /\ pend = <<>> /\ ops = 0) => Contents(tree) = <<>>
+\* C08: a store with nothing pending (just opened or reverted, no mutation
+\* since) shows the newest durable contents and sits at that root record
+Settled == (up /\ clean /\ pend = <<>>) => (Contents(tree) = TopItems /\ pos = LastRoot(file, Len(file)))
 =============================================================================
